@@ -29,15 +29,17 @@ EXPLANATION = ('Lookup keys of the zip, VPK and in-memory backends proved equal 
                'the in-memory _get_file proved to hand back the stored entry of exactly that key; FileSystemChain._get_file proved to pick the first member that '
                'has the (prefix-joined) name. Zip and VPK walk_folder: the statements before the loop plus one arbitrary '
                'iteration are proved to list a table entry exactly when its key lies inside the normal form of the folder '
-               '(all entries for the empty folder), once, as that entry. In-memory and directory walks, byte equality between backends, de-duplicated chain walks '
+               '(all entries for the empty folder), once, as that entry; likewise the in-memory walk_folder, where folders '
+               'spelled with separators only or as "." mean everything. Directory and chain walks, byte equality between backends, de-duplicated chain walks '
                'and subfolder-relative naming are decided by the bounded differential stand-in over generated file sets.')
-TRUSTED = ['str.casefold as an uninterpreted idempotent function', 'zipfile / VPK container I/O (C13)',
+TRUSTED = ['str.casefold as an uninterpreted idempotent function',
+           'library summary: str.strip(chars) / str.rstrip(c) = the unique middle / left part (regular-expression axioms)', 'zipfile / VPK container I/O (C13)',
            'os.path.normpath on relative slash-separated names without "." / ".." components is the identity up to '
            'repeated separators (bounded tier uses such names)',
            'VirtualFileSystem.__init__: the comprehension is checked by shape (key = _clean_path(stored name), value = '
            '(stored name, data), no filter), not executed symbolically; later keys overwriting earlier equal ones is '
            'Python dict semantics']
-UNVERIFIED = ['walk_folder of the in-memory and directory backends, FileSystemChain.walk_folder* (bounded only)',
+UNVERIFIED = ['walk_folder of the directory backend, FileSystemChain.walk_folder* (bounded only)',
               'that dict.items() visits every entry once (Python semantics; the walk lemmas are per entry)', 'host file-system case sensitivity for RawFileSystem']
 
 from pyvc.builtins_model import fold_fn, replace_all   # noqa: E402
@@ -417,6 +419,78 @@ vpk_walk = _walk_lemma('VPKFileSystem', '_name_to_file', 'name', 'file')
 _walk_clauses(vpk_walk)
 
 
+# in-memory walk: same lemma shape; the key function is the real _clean_path (normpath uninterpreted) and the folders
+# spelled only with separators or as '.' mean "everything" (normpath('') is '.')
+from pyvc.vc import Lemma as _Lemma   # noqa: E402
+virt_walk = REG.add(_Lemma('VirtualFileSystem.walk_folder.one_entry', PROP,
+                           [{'stmts': f'{M}:VirtualFileSystem.walk_folder', 'select': _before_loop},
+                            {'body': f'{M}:VirtualFileSystem.walk_folder', 'loop': 0, 'closure': {'__yielded__': 'YIELDED'}}],
+                           inline=('File.__init__', 'VirtualFileSystem._clean_path')))
+
+
+@virt_walk.setup
+def _(h):
+    fs, table = _virtfs(h)
+    key, stored = h.str('key'), h.str('stored_name')
+    return {'locals': {'self': fs, 'folder': h.str('folder0'), 'clean_name': key, 'filename': stored,
+                       'data': h.int('data'), 'YIELDED': []},
+            'ghost': dict(FOLDER=h.symbols['folder0'], KEY=key, STORED=stored, FS=fs)}
+
+
+@native
+def means_everything(I, folder):
+    """folder.strip('/\\') is '' or '.': the folder is spelled with separators only, or is the current directory"""
+    if not getattr(I, 'strip_witness', None):
+        # the branch that strips was not taken on this path: decide from the definition with a fresh witness
+        raise RuntimeError('strip witness missing')
+    s, m = I.strip_witness[0]
+    return z3.And(s == to_z3(folder), z3.Or(m == z3.StringVal(''), m == z3.StringVal('.')))
+
+
+@native
+def walk_prefix_folder(I):
+    return I.rstrip_witness[0][1] if getattr(I, 'rstrip_witness', None) else z3.StringVal('')
+
+
+@native
+def walk_stripped_text(I, folder):
+    """what rstrip was applied to (the cleaned folder) -- or, where no rstrip ran, the cleaned folder itself"""
+    if getattr(I, 'rstrip_witness', None):
+        return I.rstrip_witness[0][0]
+    return fold_fn()(replace_all(NORMPATH.decl(to_z3(folder)), '\\', '/'))
+
+
+@native
+def yielded_names_are(I, YIELDED, STORED, FS):
+    return z3.And(*[z3.And(to_z3(f.fields.get('path')) == to_z3(STORED), to_z3(f.fields.get('_data')) == to_z3(STORED))
+                    for f in YIELDED], *[z3.BoolVal(f.fields.get('sys') is FS) for f in YIELDED])
+
+
+@native
+def below(I, key, f):
+    """key starts with f + '/'.  (For a folder that does not mean everything, f is empty only when normpath turns it into
+    separators alone -- an absolute spelling of the root such as '/x/..', outside the names of the property; the code
+    then lists keys starting with '/', of which a table built by _clean_path from relative names has none.)"""
+    return z3.PrefixOf(z3.Concat(to_z3(f), z3.StringVal('/')), to_z3(key))
+
+
+@virt_walk.ensures
+def the_folder_is_cleaned_like_every_key(FOLDER):
+    return walk_stripped_text(FOLDER) == virt_norm(FOLDER)
+
+
+@virt_walk.ensures
+def an_entry_is_listed_exactly_when_everything_is_meant_or_it_is_inside_the_folder(FOLDER, KEY, YIELDED):
+    return (iff(n_yielded(YIELDED) == 1,
+                means_everything(FOLDER) or below(KEY, walk_prefix_folder()))
+            and n_yielded(YIELDED) <= 1)
+
+
+@virt_walk.ensures
+def the_listed_file_has_the_stored_name(YIELDED, STORED, FS):
+    return yielded_names_are(YIELDED, STORED, FS)
+
+
 # ---- every use of the in-memory table goes through the one key function (constructor, lookups, opens)
 def _shape(name, good, bad=False, line=0, note=''):
     r = smt.shape(name, good, bad, line, note)
@@ -482,7 +556,7 @@ def static_virtual_table(repo):
 
 
 STATIC = [static_virtual_table]
-PROOFS = [zip_exists, zip_get, vpk_exists, vpk_get, virt_exists, virt_get, zip_walk, vpk_walk, chain_get, chain_add]
+PROOFS = [zip_exists, zip_get, vpk_exists, vpk_get, virt_exists, virt_get, zip_walk, vpk_walk, virt_walk, chain_get, chain_add]
 
 
 # ------------------------------------------------------------------------------------------------ bounded differential
@@ -850,6 +924,18 @@ MUTATIONS = [
          old="            if filename.startswith(prefix):\n                yield File(self, fileinfo.filename, fileinfo)",
          new="            if filename.startswith(prefix):\n                yield File(self, fileinfo.filename, fileinfo)\n                if filename.endswith('.bak'):\n                    yield File(self, fileinfo.filename, fileinfo)",
          expect='ZipFileSystem.walk_folder.one_entry'),
+    dict(name='virtual_walk_bare_prefix', file='filesys.py',
+         old="        prefix = self._clean_path(folder).rstrip('/') + '/' if folder.strip",
+         new="        prefix = self._clean_path(folder).rstrip('/') if folder.strip",
+         expect='VirtualFileSystem.walk_folder.one_entry'),
+    dict(name='virtual_walk_dot_is_a_folder', file='filesys.py',
+         old="if folder.strip('/\\\\') not in ('', '.') else ''",
+         new="if folder.strip('/\\\\') != '' else ''",
+         expect='VirtualFileSystem.walk_folder.one_entry'),
+    dict(name='virtual_walk_matches_the_stored_spelling', file='filesys.py',
+         old="            if clean_name.startswith(prefix):",
+         new="            if filename.startswith(prefix):",
+         expect='VirtualFileSystem.walk_folder.one_entry'),
 ]
 HARMLESS = [
     dict(name='vpk_walk_prefix_renamed', file='filesys.py',
